@@ -260,6 +260,9 @@ func geApplyRaw(g graph.EditableGraph, model *MG, op geOp) (graph.EditableGraph,
 			if k2 != outKey {
 				return out, m, &Failure{Class: cls("nondeterministic"), What: fmt.Sprintf("%s twice: %s vs %s", js(op), outKey, k2)}
 			}
+			// continue the history on a REAL result of the operation (a clone would not reproduce storage that the
+			// library lets several neighbourhoods of the result share)
+			out = out2
 		}
 	}
 	if w := wellFormed(out, m); w != "" {
